@@ -226,7 +226,7 @@ func (r *Reader) eachByte(b byte) {
 				}
 			*/
 			r.state = readerStateClean
-			if r.HandleSysex {
+			if r.HandleSysex && r.sysexlen < len(r.sysexBf) {
 				r.sysexBf[r.sysexlen] = b
 				r.sysexlen++
 				//go
@@ -253,6 +253,13 @@ func (r *Reader) eachByte(b byte) {
 		}
 
 		if r.HandleSysex {
+			if r.sysexlen >= len(r.sysexBf)-1 {
+				// no room for this byte and the closing F7: the message is larger than the buffer and is ignored
+				r.sysexBf = nil
+				r.sysexlen = 0
+				r.state = readerStateWithinUnknown
+				return
+			}
 			r.sysexBf[r.sysexlen] = b
 			r.sysexlen++
 		}
